@@ -10,9 +10,9 @@ harness feeds to the REAL functions (harness/c05/unit.go), on admissible AND CEL
   §2 listeners      `Tls.validate_total`, `Tls.resolve_after_validate` (ALL shapes), `Listener.valid_protocol`,
                     `Listener.pipeline_total`, `Listener.unsupported_reported`, witness (nil mode)
   §3 backendRefs    `BackendRef.pipeline_total` (ALL shapes), `BackendRef.unsupported_reported`
-  §4 BackendTLSPolicy  KNOWN FINDING `C05:panic:backend_tls_policy.go:graph.processBackendTLSPolicies:index`:
-                    `Btp.empty_caRefs_witness` (admissible shape that panics), `Btp.process_error_iff`,
-                    `Btp.process_partial`, `Btp.unsupported_reported_partial`
+  §4 BackendTLSPolicy  `Btp.process_total` (ALL shapes; the code was repaired by commit cc3f1c7 after this check found
+                    the crash), `Btp.unsupported_reported`; pre-fix mirror `processBtpPre` kept as a regression detector:
+                    `Btp.pre_empty_caRefs_witness`, `Btp.pre_process_error_iff`, `Btp.pre_process_partial`
   §5 path matches   `PathMatch.pipeline_total`, `PathMatch.unsupported_reported`
   §6 `unsupported_surfaces_as_condition`
 -/
@@ -378,21 +378,59 @@ the mirror reports it invalid ("port cannot be nil") instead of dereferencing th
 example : (⟨"core", true, false, false, none, true, 0, true⟩ : BackendRefShape).adm = true
     ∧ backendRefPipeline ⟨"core", true, false, false, none, true, 0, true⟩ = .ok false := by decide
 
-/-! ## §4 BackendTLSPolicy — known finding -/
+/-! ## §4 BackendTLSPolicy (repaired by commit cc3f1c7) -/
 
-/-- FULL STRENGTH FAILS: `caCertificateRefs: []` next to `wellKnownCACertificates: System` passes both CEL rules
-(they test `size(...) > 0`), decodes to an empty non-nil slice, validates through the wellKnown arm, and
-`processBackendTLSPolicies` indexes element 0 (reproduced on the real pipeline: corpus/C05/04-…, known finding
-`C05:panic:backend_tls_policy.go:graph.processBackendTLSPolicies:index`). -/
-theorem Btp.empty_caRefs_witness :
+/-- `validateBackendTLSPolicy` has no implicit panic site of its own in the mirror -/
+theorem validateBtp_total (b : BtpShape) : ∃ r, validateBtp b = .ok r := by
+  unfold validateBtp
+  simp only
+  split
+  · exact ⟨_, rfl⟩
+  · split
+    · exact ⟨_, rfl⟩
+    · split <;> exact ⟨_, rfl⟩
+
+/-- MAIN THEOREM for the `CACertificateRefs[0]` access of `processBackendTLSPolicies` (commit cc3f1c7: the index is
+behind `len(…) > 0`): total for EVERY policy shape — nil, empty or non-empty list, any wellKnown value, ancestors full or
+not — no admissibility hypothesis. -/
+theorem Btp.process_total (b : BtpShape) : ∃ o, processBtp b = .ok o := by
+  obtain ⟨⟨valid, ignored, n⟩, hv⟩ := validateBtp_total b
+  unfold processBtp
+  simp only [hv]
+  by_cases hc : (valid && !ignored && decide (caLen b > 0)) = true
+  · have hpos : caLen b > 0 := by
+      simp only [Bool.and_eq_true, decide_eq_true_eq] at hc; exact hc.2
+    have h0 : (caLen b == 0) = false := by
+      cases hz : caLen b with
+      | zero => omega
+      | succ k => rfl
+    simp only [hc, if_true, h0, Bool.false_eq_true, if_false]
+    exact ⟨_, rfl⟩
+  · simp only [hc, Bool.false_eq_true, if_false]
+    exact ⟨_, rfl⟩
+
+/-- the regression input (corpus/C05/04-…) is harmless on the current code -/
+theorem Btp.empty_caRefs_now_ok :
+    processBtp ⟨false, true, some 0, true, true, some "System"⟩ = .ok (true, 0) := by decide
+
+example : (⟨false, true, some 1, true, true, none⟩ : BtpShape).adm = true := by decide
+
+/-! regression detector: the PRE-FIX mirror (code before cc3f1c7).  These theorems document the old defect and keep its
+signature (`C05:panic:backend_tls_policy.go:graph.processBackendTLSPolicies:index`, now `fixed`) meaningful: a revert makes
+the real function behave like `processBtpPre` again, which the unit stream recognises (`pre=` of the driver). -/
+
+/-- the old defect: `caCertificateRefs: []` next to `wellKnownCACertificates: System` passes both CEL rules (they test
+`size(...) > 0`), decodes to an empty non-nil slice, validates through the wellKnown arm, and the pre-fix
+`processBackendTLSPolicies` indexed element 0. -/
+theorem Btp.pre_empty_caRefs_witness :
     let b : BtpShape := ⟨false, true, some 0, true, true, some "System"⟩
-    b.adm = true ∧ processBtp b = .error .btpCaIndex := by decide
+    b.adm = true ∧ processBtpPre b = .error .btpCaIndex := by decide
 
-/-- exact characterisation of the panic over the mirror of `validateBackendTLSPolicy` -/
-theorem Btp.process_error_iff (b : BtpShape) :
-    (∃ s, processBtp b = .error s) ↔
+/-- exact characterisation of the old panic over the mirror of `validateBackendTLSPolicy` -/
+theorem Btp.pre_process_error_iff (b : BtpShape) :
+    (∃ s, processBtpPre b = .error s) ↔
       (b.caRefs = some 0 ∧ b.ancestorsFull = false ∧ b.hostOk = true ∧ b.wellKnown = some "System") := by
-  unfold processBtp validateBtp caLen
+  unfold processBtpPre validateBtp caLen
   cases hc : b.caRefs with
   | none =>
     cases hw : b.wellKnown <;> simp
@@ -410,15 +448,13 @@ theorem Btp.process_error_iff (b : BtpShape) :
           (split <;> simp)
       | some w => simp
 
-/-- partial: without the empty non-nil list the processing is total — for all other shapes -/
-theorem Btp.process_partial (b : BtpShape) (h : b.caRefs ≠ some 0) : ∃ o, processBtp b = .ok o := by
-  cases hp : processBtp b with
+/-- what could be proved before the repair: without the empty non-nil list the processing is total -/
+theorem Btp.pre_process_partial (b : BtpShape) (h : b.caRefs ≠ some 0) : ∃ o, processBtpPre b = .ok o := by
+  cases hp : processBtpPre b with
   | ok o => exact ⟨o, rfl⟩
   | error s =>
     exfalso
-    exact h ((Btp.process_error_iff b).mp ⟨s, hp⟩).1
-
-example : (⟨false, true, some 1, true, true, none⟩ : BtpShape).adm = true := by decide
+    exact h ((Btp.pre_process_error_iff b).mp ⟨s, hp⟩).1
 
 /-- several caCertificateRefs, or one that is not a core ConfigMap, are admissible, unsupported, and reported -/
 theorem Btp.unsupported_reported (b : BtpShape) (ha : b.adm = true) (hu : b.unsupported = true) :
